@@ -76,8 +76,12 @@ class C01(Check):
     def gen(self, rng: random.Random, tier: str, index: int) -> dict:
         full = rng.random() < 0.4
         model = "two_body" if rng.random() < 0.85 else "special_perturbations"
-        step = rng.choice(STEPS)
+        step = rng.choice(STEPS) if rng.random() < 0.75 else rng.randrange(2, 3601)
         nrun = rng.randrange(2, 9 if not full else 6)
+        if not full and rng.random() < 0.2:
+            # longer truth-only runs: how a boundary time k*step rounds through Julian dates depends on k*step itself (a few per cent of the values land
+            # within a microsecond of the boundary, e.g. 660 s), so the elapsed seconds must vary widely
+            nrun = rng.randrange(9, 41)
         ncfg = max(1, nrun + rng.choice([0, 0, 0, -1, 1, 2]))
         total = step * max(nrun, ncfg)
         if rng.random() < 0.3:
